@@ -1,5 +1,6 @@
 import BoxoModel.C15.DirLemmas
 import BoxoModel.C15.BitsLemmas
+import BoxoModel.C15.ConvLemmas
 import BoxoModel.C16.Lemmas
 /-!
 # C15 — UnixFS directories behave as name-to-entry maps
@@ -118,6 +119,18 @@ theorem c15_reload_ops (key : Name) (v : Option Lnk) (dgl : Name → List Nat) (
     rw [key_eq _ _ _ r1 n1, key_eq _ _ _ r2 n2]
   · rw [swap_lookup_ne key v dgl _ i r hwf' hk k hkk i2 r2 e, swap_lookup_ne key v dgl _ i r hwf hk k hkk i2 r2 e,
       lookup_norm]
+
+/-- **The conversions of the auto-switching directory preserve the entries.**  basic → HAMT
+(`switchToSharding`): the resulting HAMT directory is well-formed, canonical and denotes exactly the map of
+the basic directory's links.  HAMT → basic (`switchToBasic`): the resulting basic directory holds exactly
+the trie's entries, duplicate-free, and answers every lookup as the trie did. -/
+theorem c15_conversions_preserve_entries (h : Name → List Byte) (g : Globals) :
+    (∀ (b : Basic) (hd : Hamt), (b.links.map (·.1)).Nodup → switchToSharding h g b = some hd → DigitsOK (hd.dg h) →
+      hd.Inv h ∧ ∀ k, hd.abs h k = b.getLink k) ∧
+    (∀ (hd : Hamt) (ml : Int) (b : Basic), hd.Inv h → (switchToBasic g hd ml).2 = some (.inl b) →
+      b.links = hd.shard.ents ∧ (b.links.map (·.1)).Nodup ∧ ∀ k, b.getLink k = hd.abs h k) :=
+  ⟨fun b hd hn hs ok => switchToSharding_entries h g b hd hn hs ok,
+   fun hd ml b hi hs => switchToBasic_entries g (hd.dg h) hd ml b hi.1 hs⟩
 
 /-- **Bit extraction** (`hashBits.Next`, byte-level code with the regenerated `mkmask`): reading `i` bits
 at offset `consumed` fails exactly when fewer than `i` bits are left, and otherwise returns the
